@@ -263,3 +263,145 @@ def _decode(kind, total):
 for _kind in ('log', 'param'):
     for _total in range(MAX_NAMING + 1):
         _decode(_kind, _total)
+
+
+# ------------------------------------------------------------------------------------------------ 4. whole downloads (histories)
+
+SHAPES = ((2, 1), (2, 2), (1, 3))        # (group length, name length) of device entries 0, 1, 2
+NARROW = {'log': ((3, 8), (1, 7), (2, 6)), 'param': ((6,), (9,), (3,))}
+
+
+def device_table(c, kind, N, wide_types):
+    """the device table T as contract inputs: type byte, group, name per entry (names unique: entries 0 and 1 may
+    share the group (symbolic equality), their names differ in length; entry 2 has another group length)"""
+    for k in range(N):
+        c.int('t%d' % k, 0, 255)
+        if wide_types and k == 0:
+            c.require(valid_type(kind, 't0'))
+        elif kind == 'log':
+            c.require('t%d in %r' % (k, NARROW['log'][k]))
+        else:
+            c.require('(t%d & 0x0F) in %r' % (k, NARROW['param'][k]))
+        lg, ln = SHAPES[k]
+        c.bytes('g%d' % k, lg), c.bytes('n%d' % k, ln)
+        c.require('all(b != 0 and b != 46 for b in g%d) and all(b != 0 and b != 46 for b in n%d)' % (k, k))
+        c.snapshot('G%d' % k, "g%d.decode('ISO-8859-1')" % k)
+        c.snapshot('M%d' % k, "n%d.decode('ISO-8859-1')" % k)
+    c.int('crc', 0, 2 ** 32 - 1)
+    c.let('N', N)
+
+
+def device_answer(c, kind, N):
+    """what the device answers to request `rq` (it implements both generations); returns (data expression, index or None)"""
+    cmd = c.concretize('rq.data[0]')
+    if cmd == 1:
+        return "pack('<BBI', 1, N, crc)", None
+    if cmd == 3:
+        return "pack('<BHI', 3, N, crc)", None
+    if cmd == 0:
+        i = c.concretize('rq.data[1]')
+        head = "pack('<BB', 0, %d)" % i
+    else:
+        i = c.concretize("unpack('<H', bytes(rq.data[1:3]))[0]")
+        head = "pack('<BH', 2, %d)" % i
+    if not 0 <= i < N:
+        return head, i
+    return head + " + bytes([t%d]) + g%d + bytes([0]) + n%d + bytes([0])" % (i, i, i), i
+
+
+def check_table(c, kind, N, toc='toc'):
+    """the library table equals the device table, and the three lookups agree"""
+    c.ensure('same-number-of-entries', 'sum(len(grp) for grp in %s.toc.values()) == N' % toc)
+    tocv = c.get(toc)
+    for k in range(N):
+        c.call((tocv, 'get_element'), c.get('G%d' % k), c.get('M%d' % k))
+        c.ensure('entry-%d-present' % k, 'raised is None and result is not None')
+        c.snapshot('e%d' % k, 'result')
+        if c.get('e%d' % k) is None:
+            continue
+        for j, s in enumerate(element_spec(c, kind, 'e%d' % k, 't%d' % k, str(k), 'g%d' % k, 'n%d' % k)):
+            c.ensure('entry-%d-is-device-entry-%d' % (k, j), s)
+        c.call((tocv, 'get_element_by_id'), k)
+        c.ensure('lookup-by-index-%d-agrees' % k, 'raised is None and result is e%d' % k)
+        c.call((tocv, 'get_element_by_complete_name'), c.snapshot('cn', "G%d + '.' + M%d" % (k, k)))
+        c.ensure('lookup-by-complete-name-%d-agrees' % k, 'raised is None and result is e%d' % k)
+        c.call((tocv, 'get_element_id'), c.get('cn'))
+        c.ensure('index-by-complete-name-%d' % k, 'raised is None and result == %d' % k)
+
+
+def _fetch(kind, N, fault, cache='stub'):
+    @contract('C03', 'fetch.%s.n%d.%s%s' % (kind, N, fault, '' if cache == 'stub' else '.realcache'),
+              FETCH_F + [ELEMENT[kind] + '.__init__', TOC + ':Toc.get_element', TOC + ':Toc.get_element_by_id',
+                         TOC + ':Toc.get_element_by_complete_name', TOC + ':Toc.get_element_id'],
+              clause='a download against a device holding a table of %d entries (cache miss): the library asks for the table info and then for '
+                     'each index once, in the generation negotiated (current iff protocol version >= 4), transmits nothing else; completion is '
+                     'signalled exactly once, after which the library table has exactly the device entries with the device\'s index, '
+                     'type and access, and lookup by (group, name), by index and by complete name agree; fault scenario: %s' % (N, fault),
+              bounded='%d entries with group/name lengths %r; type code of entry 0 %s, of later entries one of two; '
+                      'all lengths and type codes: decode.*; any index and table size: step.*' % (N, SHAPES[:N], 'any' if N == 1 else 'one of two'))
+    def k(c):
+        f, toc = fetcher(c, kind, cache)
+        device_table(c, kind, N, wide_types=(N == 1))
+        c.call((f, 'start'))
+        c.ensure('start-no-exception', 'raised is None')
+        c.ensure('registers-own-callback-then-asks-for-info', "calls() == ('cf.platform.get_protocol_version', 'cf.add_port_callback', 'cf.send_packet') "
+                 "and sent('cf.add_port_callback')[0][1][0] == PORT and sent('cf.add_port_callback')[0][1][1] == f._new_packet_cb")
+        answered = 0
+        asked = []
+        while answered < N + 3:
+            c.snapshot('nreq', "len(sent('cf.send_packet'))")
+            if c.concretize('nreq') != answered + 1:
+                break
+            last_request(c, answered)
+            c.ensure('request-on-toc-channel-with-retry-pattern', "rq.port == PORT and rq.channel == 0 and tuple(rq_kw['expected_reply']) == tuple(rq.data)")
+            c.ensure('generation-follows-protocol-version', 'rq.data[0] == ((3 if ver >= 4 else 1) if %d == 0 else (2 if ver >= 4 else 0))' % answered)
+            data, idx = device_answer(c, kind, N)
+            asked.append(idx)
+            # ---- disturbances before the genuine answer
+            if fault == 'stale' and idx is not None:
+                v2 = c.concretize('rq.data[0]') == 2
+                c.int('s%d' % answered, 0, 65535 if v2 else 255)
+                c.require('s%d != %d' % (answered, idx))
+                c.bytes('junk%d' % answered, 6)
+                head = ("pack('<BH', 2, s%d)" if v2 else "pack('<BB', 0, s%d)") % answered
+                c.call((f, '_new_packet_cb'), packet(c, PORT[kind], 0, head + ' + junk%d' % answered, 'stale'))
+                c.ensure('stale-reply-tolerated', 'raised is None')
+            if fault == 'info-again' and idx is not None:
+                c.call((f, '_new_packet_cb'), packet(c, PORT[kind], 0, "pack('<BHI', 3, N, crc)" if c.concretize('rq.data[0]') == 2 else "pack('<BBI', 1, N, crc)", 'again'))
+                c.ensure('repeated-info-reply-tolerated', 'raised is None')
+            if fault == 'other-channel':
+                c.int('ch%d' % answered, 1, 3)
+                c.bytes('noise%d' % answered, 5)
+                pk = packet(c, PORT[kind], 0, 'noise%d' % answered, 'noise')
+                c.set(pk, 'channel', c.get('ch%d' % answered))
+                c.call((f, '_new_packet_cb'), pk)
+                c.ensure('other-channel-tolerated', 'raised is None')
+            # ---- the genuine answer (twice in the dup scenario, unless the fetch completed and unregistered itself)
+            c.call((f, '_new_packet_cb'), packet(c, PORT[kind], 0, data))
+            c.ensure('reply-no-exception', 'raised is None')
+            if fault == 'dup' and not [e for e in c.get('trace') if e[0] == 'cf.remove_port_callback']:
+                c.call((f, '_new_packet_cb'), packet(c, PORT[kind], 0, data, 'rdata2'))
+                c.ensure('duplicate-no-exception', 'raised is None')
+            answered += 1
+        c.let('asked', tuple(asked))
+        c.ensure('info-then-each-index-once-in-order', 'asked == (None,) + tuple(range(N))')
+        if cache == 'stub':
+            c.ensure('nothing-else-happens', "calls() == ('cf.platform.get_protocol_version', 'cf.add_port_callback') + ('cf.send_packet', 'cache.fetch') + "
+                     "('cf.send_packet',) * N + ('cache.insert', 'cf.remove_port_callback', 'finished')")
+            c.ensure('cache-consulted-and-fed-with-device-checksum', "sent('cache.fetch')[0][1] == (crc,) and sent('cache.insert')[0][1][0] == crc "
+                     "and sent('cache.insert')[0][1][1] is toc.toc")
+        else:
+            c.ensure('nothing-else-happens', "calls() == ('cf.platform.get_protocol_version', 'cf.add_port_callback') + "
+                     "('cf.send_packet',) * (N + 1) + ('cf.remove_port_callback', 'finished')")
+        c.ensure('completion-signalled-exactly-once', "len(sent('finished')) == 1 and sent('finished')[0][1] == ()")
+        c.ensure('own-callback-unregistered', "sent('cf.remove_port_callback')[0][1][0] == PORT and sent('cf.remove_port_callback')[0][1][1] == f._new_packet_cb")
+        check_table(c, kind, N)
+    return k
+
+
+for _kind in ('log', 'param'):
+    for _N in (3, 2, 1, 0):
+        for _fault in (('none', 'dup', 'stale', 'info-again', 'other-channel') if _N else ('none', 'other-channel')):
+            _fetch(_kind, _N, _fault)
+    _fetch(_kind, 2, 'none', cache='real')
+    _fetch(_kind, 0, 'none', cache='real')
